@@ -54,6 +54,9 @@ def sites_c04(inf, levels=None, coords=False):
             for d in range(nd):
                 out.append({"op": "fabhdr", "lv": lv, "box": bi, "what": "hi", "dim": d, "delta": 1})
                 out.append({"op": "fabhdr", "lv": lv, "box": bi, "what": "lo", "dim": d, "delta": 1 if b["shape"][d] > 1 else -1})
+            for d in range(nd):     # same shape, moved by one / two cells: only the index comparison can see it
+                out.append({"op": "fabhdr", "lv": lv, "box": bi, "what": "shift", "dim": d, "delta": 1})
+                out.append({"op": "fabhdr", "lv": lv, "box": bi, "what": "shift", "dim": d, "delta": -2})
             out.append({"op": "fabhdr", "lv": lv, "box": bi, "what": "ncomp", "delta": 1})
             out.append({"op": "fabhdr", "lv": lv, "box": bi, "what": "ncomp", "delta": -1})
             for d in range(nd):
@@ -233,6 +236,8 @@ def apply(path, inf, mut):
                 hi[mut["dim"]] += mut["delta"]
             elif mut["what"] == "lo":
                 lo[mut["dim"]] += mut["delta"]
+            elif mut["what"] == "shift":
+                lo[mut["dim"]] += mut["delta"]; hi[mut["dim"]] += mut["delta"]
             else:
                 nc += mut["delta"]
             new = refparse.FABRE.pattern  # unused; build explicitly
